@@ -62,6 +62,8 @@ VALID = [
     'require ["imap4flags"];\nif anyof (hasflag "x") { keep; }\nif hasflag "y" { discard; }\n',
     'require ["imap4flags"];\nif hasflag "z" { keep; }\n',
 ]
+# degenerate but valid scripts: nothing at all (as str and as bytes), a blank line, a lone comment
+DEGENERATE = ['', b'', '\n', '# only a comment\n']
 INVALID = [
     'if header :contains "Subject" "x" { fileinto "F"; }\n',          # extension not loaded
     'require "fileinto"\nkeep;\n',                                    # missing semicolon
@@ -300,7 +302,8 @@ def draw_script(wl, label, classes, marathon=False):
         return base[:m.start()] + TAGS[wl.int(label + ".tag", len(TAGS))] + base[m.end():]
     if k == 0:
         classes.add("valid")
-        return VALID[wl.int(label + ".valid", len(VALID))]
+        j = wl.int(label + ".valid", len(VALID) + len(DEGENERATE))
+        return VALID[j] if j < len(VALID) else DEGENERATE[j - len(VALID)]
     if k == 1:
         classes.add("invalid")
         return INVALID[wl.int(label + ".invalid", len(INVALID))]
